@@ -54,12 +54,17 @@ thread_local! {
     pub static MAX_CALL_PROBE: std::cell::Cell<(u64, u64)> = const { std::cell::Cell::new((0, 0)) };
 }
 
+/// CPU time the calling thread has spent in USER mode (getrusage(RUSAGE_THREAD).ru_utime). Not the
+/// thread's CPU clock: that one also counts kernel time, and on an overloaded machine a page fault
+/// or an munmap spins on kernel locks for seconds - seen as a 3.2 s "call" of a build that takes
+/// 0.15 s (a false `slow-build` alarm on a benign change, DESIGN 9.12). A compile call is pure
+/// computation, so user time is what it costs.
 fn thread_cpu_ms() -> u64 {
-    let mut ts = libc::timespec { tv_sec: 0, tv_nsec: 0 };
+    let mut ru: libc::rusage = unsafe { std::mem::zeroed() };
     unsafe {
-        libc::clock_gettime(libc::CLOCK_THREAD_CPUTIME_ID, &mut ts);
+        libc::getrusage(libc::RUSAGE_THREAD, &mut ru);
     }
-    (ts.tv_sec as u64) * 1000 + (ts.tv_nsec as u64) / 1_000_000
+    (ru.ru_utime.tv_sec as u64) * 1000 + (ru.ru_utime.tv_usec as u64) / 1000
 }
 
 pub fn take_max_call_cpu_ms() -> u64 {
